@@ -196,6 +196,9 @@ struct Case {
     holes: Vec<HoleInfo>,
     nctx: usize, // plain parameters in the context
     kind: &'static str,
+    // definitions in the context (after the parameters): each is valid in the context that
+    // contains the parameters and all the definitions (offset 1 for the last one, and so on)
+    ctx_defs: Vec<E>,
 }
 
 fn viol(ctx: &mut Ctx, key: &str, what: &str, c: &Case) {
@@ -209,10 +212,15 @@ fn run_case_inner(ctx: &mut Ctx, c: &Case) {
     let mut tg = ToGram::new();
     let p = tg.go(&c.pattern);
     let q = tg.go(&c.instance);
+    let ctx_def_terms: Vec<Term<'static>> = c.ctx_defs.iter().map(|d| tg.go(d)).collect();
     let cells: Vec<(u32, Rc<RefCell<Option<Term<'static>>>>)> = tg.cells.iter().map(|(k, v)| (*k, v.clone())).collect();
     verif_hooks::reset();
     let res = guard(|| {
         let mut dc: Vec<Option<(Rc<Term<'static>>, usize)>> = vec![None; c.nctx];
+        let nd = ctx_def_terms.len();
+        for (i, d) in ctx_def_terms.iter().enumerate() {
+            dc.push(Some((Rc::new(d.clone()), nd - i)));
+        }
         let r = unify(&p, &q, &mut dc);
         (r, dc.len())
     });
@@ -224,7 +232,7 @@ fn run_case_inner(ctx: &mut Ctx, c: &Case) {
             return;
         }
     };
-    if dclen != c.nctx {
+    if dclen != c.nctx + c.ctx_defs.len() {
         viol(ctx, "context-not-restored", &format!("the definitions context has {dclen} entries after unify, {} before", c.nctx), c);
         return;
     }
@@ -235,7 +243,7 @@ fn run_case_inner(ctx: &mut Ctx, c: &Case) {
     ctx.nontrivial(hash_str(&format!("{}|{}", c.pattern.show(), c.instance.show())));
     // (c) no cell reachable from its own content
     let mut seen = HashSet::new();
-    if has_cycle(&p, &mut vec![], &mut seen) || has_cycle(&q, &mut vec![], &mut seen) {
+    if has_cycle(&p, &mut vec![], &mut seen) || has_cycle(&q, &mut vec![], &mut seen) || ctx_def_terms.iter().any(|d| has_cycle(d, &mut vec![], &mut seen)) {
         viol(ctx, "cyclic-solution", "a hole was solved by a term that contains the hole itself", c);
         return;
     }
@@ -283,6 +291,15 @@ fn run_case_inner(ctx: &mut Ctx, c: &Case) {
     let nbe = Nbe::new(NBE_FUEL);
     let mut conv = crate::core::Conv::new();
     let mut stack: Vec<u32> = (0..c.nctx).map(|i| conv.fresh(&format!("ctx{i}"))).collect();
+    // context definitions become a transparent group around both terms
+    let wrap = |body: &E, m: &mut Mirror| -> E {
+        if ctx_def_terms.is_empty() {
+            body.clone()
+        } else {
+            E::Let(ctx_def_terms.iter().enumerate().map(|(i, d)| (format!("cd{i}"), E::Type, m.go(d))).collect(), bx(body.clone()))
+        }
+    };
+    let (pe, qe) = (wrap(&pe, &mut m), wrap(&qe, &mut m));
     let (cp, cq) = match (conv.go(&pe, &mut stack), conv.go(&qe, &mut stack)) {
         (Ok(a), Ok(b)) => (a, b),
         (Err(e), _) | (_, Err(e)) => {
@@ -445,9 +462,9 @@ fn punched_case(r: &mut Rng, t: &E, variant: u64) -> Case {
     }
     let (pattern, instance) = if r.chance(1, 2) { (pattern, instance) } else { (instance, pattern) };
     if both_sides {
-        return Case { pattern, instance, holes, nctx: 0, kind: "holes-on-both-sides" };
+        return Case { pattern, instance, holes, nctx: 0, kind: "holes-on-both-sides", ctx_defs: vec![] };
     }
-    Case { pattern, instance, holes, nctx: 0, kind: ["punched-vs-original", "punched-vs-beta-expanded", "punched-vs-definition-wrapped"][(variant % 3) as usize] }
+    Case { pattern, instance, holes, nctx: 0, kind: ["punched-vs-original", "punched-vs-beta-expanded", "punched-vs-definition-wrapped"][(variant % 3) as usize], ctx_defs: vec![] }
 }
 
 fn handmade(idx: u64) -> Option<Case> {
@@ -456,7 +473,8 @@ fn handmade(idx: u64) -> Option<Case> {
     let lam = |b: E| E::Lam("x".into(), false, bx(E::Int), bx(b));
     let app = |a: E, b: E| E::App(bx(a), bx(b));
     let hi = |id: u32, home: usize| HoleInfo { id, home_depth: home };
-    let c = |p: E, q: E, holes: Vec<HoleInfo>, nctx: usize, kind: &'static str| Some(Case { pattern: p, instance: q, holes, nctx, kind });
+    let c = |p: E, q: E, holes: Vec<HoleInfo>, nctx: usize, kind: &'static str| Some(Case { pattern: p, instance: q, holes, nctx, kind, ctx_defs: vec![] });
+    let cd = |p: E, q: E, holes: Vec<HoleInfo>, defs: Vec<E>, kind: &'static str| Some(Case { pattern: p, instance: q, holes, nctx: 0, kind, ctx_defs: defs });
     match idx {
         // occurs check: ?a against f ?a
         0 => c(h(0, 0), app(v("f", 0), h(0, 0)), vec![hi(0, 0)], 1, "occurs-check"),
@@ -492,6 +510,14 @@ fn handmade(idx: u64) -> Option<Case> {
         // ?a written outside x, against a binder whose hole lives inside x but outside y
         23 => c(lam(h(0, 1)), lam(lam(h(1, 1))), vec![hi(0, 0), hi(1, 1)], 0, "hole-would-leave-its-scope"),
         24 => c(lam(lam(h(0, 1))), lam(lam(lam(h(1, 1)))), vec![hi(0, 1), hi(1, 2)], 0, "hole-would-leave-its-scope"),
+        // occurs check through a definition of the context: t = ?0 -> int; ?0 against t
+        25 => cd(h(0, 1), v("t", 0), vec![hi(0, 0)], vec![E::Pi("_".into(), false, bx(h(0, 1)), bx(E::Int))], "occurs-check-through-context-definition"),
+        26 => cd(v("t", 0), h(0, 1), vec![hi(0, 0)], vec![E::Pi("_".into(), false, bx(h(0, 1)), bx(E::Int))], "occurs-check-through-context-definition"),
+        // two definitions: u = t -> t; t = ?0; ?0 against u
+        27 => cd(h(0, 2), v("u", 1), vec![hi(0, 0)], vec![E::Pi("_".into(), false, bx(v("t", 0)), bx(v("t", 1))), h(0, 2)], "occurs-check-through-two-context-definitions"),
+        // a definition that solves nothing: t = int; ?0 against t, and ?0 -> ?0 against t -> int
+        28 => cd(h(0, 1), v("t", 0), vec![hi(0, 0)], vec![E::Int], "hole-against-defined-variable"),
+        29 => cd(E::Pi("_".into(), false, bx(h(0, 1)), bx(h(0, 2))), E::Pi("_".into(), false, bx(v("t", 0)), bx(E::Int)), vec![hi(0, 0)], vec![E::Int], "hole-against-defined-variable"),
         _ => None,
     }
 }
@@ -502,7 +528,7 @@ impl Prop for C12P {
     }
     fn plan(&self, tier: Tier, _seed: u64) -> Plan {
         let mut p = Plan::new(
-            vec![sec("handmade-configurations", 25), sec("punched-terms", tier.pick(20_000, 400_000)), sec("unrelated-pairs", tier.pick(4_000, 80_000))],
+            vec![sec("handmade-configurations", 30), sec("punched-terms", tier.pick(20_000, 400_000)), sec("unrelated-pairs", tier.pick(4_000, 80_000))],
             "1-4 holes (fresh or shared cells, shift 0..3 bounded by the binder depth) punched at arbitrary positions into hole-free well-typed terms from the typed generator, unified against the original, a beta-expanded and a definition-wrapped variant, in both argument orders; pairs of unrelated terms; hand-made occurs-check, scope-escape and shared-cell configurations with and without context parameters; after every successful call the cells are inspected for cycles, scope and consistency; non-trivial = distinct pair on which unify succeeded",
         );
         p.assumptions = vec![
@@ -552,7 +578,7 @@ impl Prop for C12P {
 pub fn miri_cases(ctx: &mut Ctx, seed: u64, shard: u64, nshards: u64, count: u64) -> u64 {
     for i in 0..count {
         let idx = shard + i * nshards;
-        if let Some(c) = handmade(idx % 25) {
+        if let Some(c) = handmade(idx % 30) {
             run_case_inner(ctx, &c);
         }
         let mut r = Rng::for_case(seed, 79, idx);
